@@ -43,6 +43,9 @@ type vHC struct {
 	// interesting values for argument generation
 	hashes [][32]byte // hashes that occur as preimage / lookup keys (and a few that do not)
 	keys   [][]byte   // storage keys that occur (and a few that do not)
+	// transferBias: half of the calls are transfers, most of them to an existing service with a small amount, so that
+	// the call reaches its gas step (C04's charge stratum)
+	transferBias bool
 }
 
 func vThreshold(items uint64, octets *big.Int, f uint64) *big.Int {
@@ -143,7 +146,15 @@ func (c *vHC) genAccount(r vh.R, id types.ServiceID, kv *types.StateKeyVals, ric
 		a.ServiceInfo.DepositOffset = types.U64(r.IntN(300))
 	}
 	th := vThreshold(items, vBig().SetUint64(octets), uint64(a.ServiceInfo.DepositOffset)).Uint64()
-	switch r.IntN(6) {
+	switch r.IntN(8) {
+	case 6: // already below its threshold (a state the protocol can be in: thresholds are only enforced when a call would raise them)
+		a.ServiceInfo.Balance = types.U64(th - min(th, uint64(1+r.IntN(60))))
+	case 7:
+		if r.Bool() {
+			a.ServiceInfo.Balance = types.U64(r.IntN(int(min(th, 1<<30)) + 1))
+		} else {
+			a.ServiceInfo.Balance = types.U64(th + uint64(r.IntN(5000)))
+		}
 	case 0:
 		a.ServiceInfo.Balance = types.U64(th)
 	case 1:
